@@ -120,6 +120,13 @@ func solveOne(o *Obligation, cfg SolveCfg, w int) {
 	if len(seq) == 0 {
 		seq = []int{0, 1, 2}
 	}
+	if o.Canary {
+		// vacuity canaries only need "not refuted": one solver, short limit
+		seq = []int{0}
+		if cfg.TimeoutS > 5 {
+			cfg.TimeoutS = 5
+		}
+	}
 	total := 0.0
 	for _, si := range seq {
 		sd := solvers[si]
